@@ -331,3 +331,76 @@ Proof.
   - cbn [variants]. rewrite map_length, IH. unfold is_param, lit_at. reflexivity.
   - cbn [variants]. rewrite map_length, IH. unfold is_param, lit_at. reflexivity.
 Qed.
+
+(* ---------- expand: what becomes a placeholder ---------- *)
+Lemma take_name_spec l : forall acc nm rest, take_name l acc = Some (nm, rest) ->
+  exists x, nm = acc ++ x /\ l = map Lit x ++ Lit c_pct :: rest /\ ~ In c_pct x.
+Proof.
+  induction l as [|i l IH]; intros acc nm rest H; [discriminate H|].
+  destruct i as [c| | |n]; try discriminate H. cbn [take_name] in H.
+  destruct (N.eqb c c_pct) eqn:E.
+  - apply N.eqb_eq in E. subst c. inversion H; subst. exists []. rewrite app_nil_r. auto.
+  - apply IH in H. destruct H as [x [H1 [H2 H3]]]. exists (c :: x). subst.
+    rewrite <- app_assoc. split; [reflexivity|]. split; [reflexivity|].
+    intros [K|K]; [subst c; rewrite N.eqb_refl in E; discriminate E | exact (H3 K)].
+Qed.
+
+(* every new placeholder stands for a %name% of the input: name not empty, free of '%',
+   between two literal '%' *)
+Theorem sp_expand_sound : forall f l n, In (Ph n) (sp_expand_go f l) ->
+  In (Ph n) l \/
+  (n <> [] /\ ~ In c_pct n /\ exists pre post, l = pre ++ Lit c_pct :: map Lit n ++ Lit c_pct :: post).
+Proof.
+  assert (EXT: forall (i : item) l n,
+            (In (Ph n) l \/ (n <> [] /\ ~ In c_pct n /\ exists pre post, l = pre ++ Lit c_pct :: map Lit n ++ Lit c_pct :: post)) ->
+            In (Ph n) (i :: l) \/ (n <> [] /\ ~ In c_pct n /\ exists pre post, i :: l = pre ++ Lit c_pct :: map Lit n ++ Lit c_pct :: post)).
+  { intros i l n [H|[H1 [H2 [pre [post E]]]]]; [left; right; exact H|].
+    right. split; [exact H1|]. split; [exact H2|]. exists (i :: pre), post. rewrite E. reflexivity. }
+  induction f as [|f IH]; intros l n H.
+  - left. exact H.
+  - destruct l as [|i l]; [destruct H|]. cbn [sp_expand_go] in H.
+    destruct i as [c| | |m].
+    + destruct (N.eqb c c_pct) eqn:Ec.
+      * destruct (take_name l []) as [[[|x name] rest]|] eqn:T.
+        -- destruct H as [H|H]; [discriminate H|]. apply EXT, IH, H.
+        -- apply N.eqb_eq in Ec. subst c. apply take_name_spec in T. destruct T as [y [T1 [T2 T3]]].
+           cbn [app] in T1. subst y. destruct H as [H|H].
+           ++ inversion H; subst n. right. split; [discriminate|]. split; [exact T3|].
+              exists [], rest. rewrite T2. reflexivity.
+           ++ apply IH in H. destruct H as [H|[H1 [H2 [pre [post E]]]]].
+              ** left. right. rewrite T2. apply in_or_app. right. right. exact H.
+              ** right. split; [exact H1|]. split; [exact H2|].
+                 exists (Lit c_pct :: map Lit (x :: name) ++ Lit c_pct :: pre), post.
+                 rewrite T2, E. cbn [app]. rewrite <- app_assoc. reflexivity.
+        -- destruct H as [H|H]; [discriminate H|]. apply EXT, IH, H.
+      * destruct (N.eqb c c_bs).
+        -- destruct l as [|[d| | |m] l']; try (destruct H as [H|H]; [discriminate H|]; apply EXT, IH, H).
+           destruct (N.eqb d c_pct).
+           ++ destruct H as [H|H]; [discriminate H|]. apply EXT, EXT, IH, H.
+           ++ destruct H as [H|H]; [discriminate H|]. apply EXT, IH, H.
+        -- destruct H as [H|H]; [discriminate H|]. apply EXT, IH, H.
+    + destruct H as [H|H]; [discriminate H|]. apply EXT, IH, H.
+    + destruct H as [H|H]; [discriminate H|]. apply EXT, IH, H.
+    + destruct H as [H|H]; [inversion H; left; left; reflexivity|]. apply EXT, IH, H.
+Qed.
+
+(* without a literal '%' nothing changes *)
+Theorem sp_expand_no_pct : forall f l,
+  existsb (fun i => match i with Lit c => N.eqb c c_pct | _ => false end) l = false -> sp_expand_go f l = l.
+Proof.
+  induction f as [|f IH]; intros l H; [reflexivity|]. destruct l as [|i l]; [reflexivity|].
+  cbn [existsb] in H. apply orb_false_iff in H. destruct H as [H1 H2]. cbn [sp_expand_go].
+  destruct i as [c| | |m]; try (rewrite IH by exact H2; reflexivity).
+  rewrite H1. destruct (N.eqb c c_bs); [|rewrite IH by exact H2; reflexivity].
+  destruct l as [|[d| | |m] l']; try (rewrite IH by exact H2; reflexivity).
+  cbn [existsb] in H2. apply orb_false_iff in H2. destruct H2 as [H3 H4]. rewrite H3.
+  rewrite IH; [reflexivity|]. cbn [existsb]. rewrite H3, H4. reflexivity.
+Qed.
+
+Lemma expand_sound l n : In (Ph n) (sp_expand l) ->
+  In (Ph n) l \/
+  (n <> [] /\ ~ In c_pct n /\ exists pre post, l = pre ++ Lit c_pct :: map Lit n ++ Lit c_pct :: post).
+Proof. apply sp_expand_sound. Qed.
+Lemma expand_no_pct l :
+  existsb (fun i => match i with Lit c => N.eqb c c_pct | _ => false end) l = false -> sp_expand l = l.
+Proof. apply sp_expand_no_pct. Qed.
